@@ -18,8 +18,9 @@ LEVEL_TEXT = ("All histories of insert/update/remove/random_removal up to the de
               "equals weight/sum, zero weights are never selected, selection terminates when the sum is positive, total_weight() equals the sum.")
 LEVEL_NOTE = "bounded depth and alphabet; reference = a plain dict; float tolerance 1e-9"
 RULE = "states = distinct full internal states (items order, positions, weights, total, max, max count) reached by any history up to the depth bound; non-trivial = state with >=2 items of different positive weight"
-BOUNDS = {"quick": "items {a,b,c}; weights {0,0.1,0.3,2}; depth 5; start states: empty + one per first operation (fan-out)",
-          "thorough": "items {a,b,c}; weights {0,0.1,0.2,0.3,1,2}; depth 6"}
+# every selection is explored with the probability-zero outcome "uniform draw == 0.0" as an extra branch
+BOUNDS = {"quick": "items {a,b,c}; weights {0,1e-8,0.1,0.3,2}; depth 5; start states: empty + one per first operation (fan-out)",
+          "thorough": "items {a,b,c}; weights {0,1e-8,0.1,0.2,0.3,1,2}; depth 5"}
 ASSUMPTIONS = ["weight increments are non-negative (as the property states)", "bounded history depth"]
 
 ITEMS = ["a", "b", "c"]
@@ -59,8 +60,8 @@ def apply_ref(ref, op):
 
 
 def specs(tier, seed):
-    W = [0, 0.1, 0.3, 2] if tier == "quick" else [0, 0.1, 0.2, 0.3, 1, 2]
-    depth = 5 if tier == "quick" else 6
+    W = [0, 1e-8, 0.1, 0.3, 2] if tier == "quick" else [0, 1e-8, 0.1, 0.2, 0.3, 1, 2]
+    depth = 5
     # fan out over the first two operations so that 16 processes share the search
     out = []
     ops = ops_for(W)
@@ -75,11 +76,16 @@ def selection(sim, ld):
     def fn(orc):
         c = copy.deepcopy(ld)
         return c.choose_random()
-    runs = list(explore(sim, fn, cap=5000, selfcheck=0, heap=False))
-    exc = [r.exc for r in runs if r.exc is not None]
+    runs = list(explore(sim, fn, cap=20000, selfcheck=0, heap=False, zero_draws=True))
+    exc = [r.exc for r in runs if r.exc is not None and r.prob() > 0]
     if exc:
         return None, exc[0], len(runs)
-    return outcome_dist(runs, lambda r: r.out), None, len(runs)
+    # executions of probability zero (a uniform draw equal to exactly 0.0) are legal behaviours too: the
+    # property says a zero-weight candidate is NEVER selected
+    never = [r.out for r in runs if r.cut is None and r.exc is None]
+    d = outcome_dist([r for r in runs if not (r.exc is not None and r.prob() == 0)], lambda r: r.out)
+    d["__returned__"] = set(never)
+    return d, None, len(runs)
 
 
 def check_state(sim, ld, ref, hist, A):
@@ -100,6 +106,11 @@ def check_state(sim, ld, ref, hist, A):
         A.execs += n
         if exc is not None:
             A.add(V("C16", "_ListDict_", cls, "select_exception", "after %r: choose_random raised %r with weights %r" % (hist, exc, ref), hist))
+            return
+        returned = dist.pop("__returned__", set())
+        zsel = [x for x in returned if ref.get(x, 0) <= 0]
+        if zsel:
+            A.add(V("C16", "_ListDict_", cls, "zero_selected", "after %r: the zero-weight candidate %r can be returned by choose_random (when a uniform draw equals exactly 0.0) (weights %r)" % (hist, zsel[0], ref), hist))
             return
         if ("LIVELOCK",) in dist:
             A.add(V("C16", "_ListDict_", cls, "livelock", "after %r: choose_random can never accept (weights %r, max_weight %r)" % (hist, ref, ld.max_weight), hist))
